@@ -55,7 +55,9 @@ pub fn boundary_len_string() -> BoxedStrategy<Vec<u8>> {
         1 => prop::sample::select(vec![9_999_999usize, 10_000_000, 10_000_001]),
     ]
     .prop_flat_map(|n| (Just(n), any::<u8>()))
-    .prop_map(|(n, b)| vec![b; n])
+    // (thousands of `l` in a row become thousands of nested lists once a mutation damages the length prefix: that is
+    // the deep-nesting known finding of C16, probed on purpose by its sub `deep` and excluded here by construction)
+    .prop_map(|(n, b)| vec![if b == b'l' && n > 5000 { b'L' } else { b }; n])
     .boxed()
 }
 
